@@ -45,7 +45,7 @@ BOUND = T5 + T6 + T3 + 2 * DELAY + 1.0
 
 OPS = [
     "request_svs", "request_sv", "list_svs", "request_ecs", "set_ecs", "set_ecs_bad", "list_ecs", "list_alarms", "enable_alarm",
-    "disable_alarm", "set_alarm", "clear_alarm", "subscribe", "trigger", "trigger", "update_sv", "go_online", "go_offline", "rcmd",
+    "disable_alarm", "set_alarm", "clear_alarm", "subscribe", "subscribe2", "trigger", "trigger", "update_sv", "go_online", "go_offline", "rcmd",
     "are_you_there", "restart_host", "restart_equipment",
 ]
 
@@ -139,7 +139,7 @@ def run_case(case, observe=None):
         alarms_rx = []
         host.events.alarm_received += lambda d: alarms_rx.append((d["alid"].get(), d["code"].get()))
         # ---- model of what the equipment holds
-        model = {"sv10": 123, "ec20": 321, "alarm_enabled": False, "alarm_set": False, "subscribed": False, "online": False}
+        model = {"sv10": 123, "ec20": 321, "alarm_enabled": False, "alarm_set": False, "subscribed": False, "subscribed2": False, "online": False}
 
         def fail(bucket, i, obs, exp):
             op = case["ops"][i] if 0 <= i < len(case["ops"]) else "startup"
@@ -289,6 +289,15 @@ def run_case(case, observe=None):
                 if f:
                     return f
                 model["subscribed"] = True
+            elif k == "subscribe2":
+                # a second report (other variable) linked to the same event
+                stats["caps"].add("event")
+                if model["subscribed2"]:
+                    continue
+                r, f = hostcall(i, lambda: host.subscribe_collection_event(50, [10], 1001), k)
+                if f:
+                    return f
+                model["subscribed2"] = True
             elif k == "trigger":
                 stats["caps"].add("event")
                 st_, box = call(lambda: eq.trigger_collection_events([50]))
@@ -296,11 +305,14 @@ def run_case(case, observe=None):
                     return fail("equipment-call-hangs:trigger", i, f"{st_} {sim.blocked_report()}", "returns")
                 sim.advance(0.5)
                 new = [e for e in events[n_ev:] if e[1] == 50]
-                if model["subscribed"]:
-                    if len(new) != 1:
-                        return fail("event-not-exactly-once:" + ("lost" if not new else "duplicated"), i, new, "exactly one collection_event_received")
-                    if new[0][2] != 1000 or new[0][3] != [31337]:
-                        return fail("event-values-wrong", i, new[0], "rptid 1000 values [31337]")
+                want = ([(1000, [31337])] if model["subscribed"] else []) + ([(1001, [model["sv10"]])] if model["subscribed2"] else [])
+                if want:
+                    # the host fires one collection_event_received per linked report of the S6F11
+                    if len(new) != len(want):
+                        return fail("event-not-exactly-once:" + ("lost" if len(new) < len(want) else "duplicated"), i, new, f"exactly {len(want)} collection_event_received (one per linked report)")
+                    got = sorted((e[2], e[3]) for e in new)
+                    if got != sorted(want):
+                        return fail("event-values-wrong", i, got, sorted(want))
                 elif new:
                     return fail("event-while-not-subscribed", i, new, "none")
             elif k == "update_sv":
